@@ -803,3 +803,4 @@ class SequencerC16(SequencerSuite):
     name = 'sequencer'
     evals = {'mismatches': 'mismatches', 'spec_violations': 'other_crashes',
              'known:reentrant-next-keyerror': 'known_keyerror'}
+    thorough_cases = 5000
